@@ -67,7 +67,7 @@ theorem spellTxt_mem_unary {o : Nat} (ho : o < T.ops.length) (har : (T.row o).ar
 /-- the lexer reads a bracketed or unbracketed operand text -/
 theorem lex_wrap (hlp : S.contains [40] = true) (hrp : S.contains [41] = true)
     (hsafeL : safeBeforeTerm T S [40] = true)
-    (hsafeR : ∀ t ∈ S, [41].isPrefixOf t = true → t = [41] ∨ isWs ((t.drop 1).headD 0) = false ∧ (t.drop 1).headD 0 ≠ 41 ∧ (t.drop 1).headD 0 ≠ 44 ∧ (t.drop 1).headD 0 ≠ 58 ∧ (t.drop 1).headD 0 ≠ 46)
+    (hsafeR : ∀ t ∈ S, [41].isPrefixOf t = true → t = [41] ∨ isWs ((t.drop 1).headD 0) = false ∧ (t.drop 1).headD 0 ≠ 41 ∧ (t.drop 1).headD 0 ≠ 44 ∧ (t.drop 1).headD 0 ≠ 58 ∧ (t.drop 1).headD 0 ≠ 46 ∧ (t.drop 1).headD 0 ≠ 125)
     {txt : List Nat} {toks : List Tok} (ht : Steps S txt toks Follow) (hs : ∀ rest, TextStart T (txt ++ rest)) (b : Bool) :
     Steps S (wrapT b txt) (wrap b toks) Follow ∧ ∀ rest, TextStart T (wrapT b txt ++ rest) := by
   cases b with
@@ -130,7 +130,7 @@ theorem dcolon_steps {d : Nat}
 /-- main induction: the lexer reads the text of `t` as `printSkel t`, and the text begins like a term -/
 theorem lex_term (hT : TextOK T L S) (uni : Bool) : ∀ t : Skel, t.WF T L → t.NamesOK S →
     Steps S (printText T L S uni t) (printSkel T L uni t) Follow ∧ ∀ rest, TextStart T (printText T L S uni t ++ rest) := by
-  obtain ⟨h1, hdot, hlp, hrp, hdotT, hif, hthen, helse, hsafeL, hsafeR, hsafeD, _, hbin, hun, hbind, hTy, hdc⟩ := hT
+  obtain ⟨h1, hdot, hlp, hrp, hdotT, hif, hthen, helse, hsafeL, hsafeR, hsafeD, _, hbin, hun, hbind, hTy, hdc, hbr⟩ := hT
   have wrapL := fun {txt : List Nat} {toks : List Tok} (ht : Steps S txt toks Follow) (hs : ∀ rest, TextStart T (txt ++ rest)) (b : Bool) =>
     lex_wrap (T := T) hlp hrp hsafeL hsafeR ht hs b
   intro t
@@ -283,6 +283,97 @@ theorem lex_term (hT : TextOK T L S) (uni : Bool) : ∀ t : Skel, t.WF T L → t
       have := ts_binder (T := T) (binderTxt_mem hasc uni)
         (x ++ 58 :: 58 :: (printTyText L.ty S uni ty ++ 46 :: 32 :: printText T L S uni body) ++ rest)
       simpa [printText, List.append_assoc] using this
+  | interval a b iha ihb =>
+    intro hw hn
+    have ha := iha hw.1 hn.1
+    have hb := ihb hw.2 hn.2
+    obtain ⟨⟨hLc, hLt, hLs⟩, ⟨hDc, hDt, hDs⟩, ⟨hRc, hRt, hRs⟩⟩ := hbr
+    have hL : Steps S [123] [.sym L.lbrace] (SafeAfter S [123]) := by
+      have := steps_symbol (S := S) (w := [123]) (by decide) hLc
+      rw [hLt] at this; exact this
+    have hD : Steps S [46, 46] [.sym L.dotdot] (SafeAfter S [46, 46]) := by
+      have := steps_symbol (S := S) (w := [46, 46]) (by decide) hDc
+      rw [hDt] at this; exact this
+    have hR : Steps S [125] [.sym L.rbrace] Follow := by
+      have := steps_symbol (S := S) (w := [125]) (by decide) hRc
+      rw [hRt] at this
+      exact this.mono (fun rest _ => safe_only hRs rest)
+    refine ⟨?_, fun rest => by simpa [printText] using ts_lbrace (T := T) _⟩
+    have h4 := Steps.append hb.1 hR (fun rest _ => follow_rbrace rest)
+    have h3 := Steps.append hD h4 (fun rest _ => safe_beforeTerm hDs (by
+      have := hb.2 ([125] ++ rest)
+      simpa [List.append_assoc] using this))
+    have h2 := Steps.append ha.1 h3 (fun rest _ => follow_dot _)
+    have h1' := Steps.append hL h2 (fun rest _ => safe_beforeTerm hLs (by
+      have := ha.2 (([46, 46] ++ (printText T L S uni b ++ [125])) ++ rest)
+      simpa [List.append_assoc] using this))
+    simpa [printText, printSkel, List.append_assoc] using h1'
+  | collect x body ihb =>
+    intro hw hn
+    have hb := ihb hw hn.2
+    obtain ⟨⟨hLc, hLt, hLs⟩, _, ⟨hRc, hRt, hRs⟩⟩ := hbr
+    have hL : Steps S [123] [.sym L.lbrace] (SafeAfter S [123]) := by
+      have := steps_symbol (S := S) (w := [123]) (by decide) hLc
+      rw [hLt] at this; exact this
+    have hR : Steps S [125] [.sym L.rbrace] Follow := by
+      have := steps_symbol (S := S) (w := [125]) (by decide) hRc
+      rw [hRt] at this
+      exact this.mono (fun rest _ => safe_only hRs rest)
+    have hD : Steps S [46, 32] [.dot] (SafeAfter S [46, 32]) := by
+      have := steps_symbol (S := S) (w := [46, 32]) (by decide) hdotT
+      simpa [tokOfTerminal] using this
+    obtain ⟨hxn, hxi⟩ := hn.1
+    have hxs : ∀ r, TextStart T (x ++ r) := by
+      intro r
+      cases x with
+      | nil => simp [idShaped] at hxi
+      | cons c cs =>
+        simp only [idShaped, Bool.and_eq_true] at hxi
+        simp only [List.cons_append]
+        exact ts_head _ (Or.inl hxi.1)
+    refine ⟨?_, fun rest => by simpa [printText] using ts_lbrace (T := T) _⟩
+    have h4 := Steps.append hb.1 hR (fun rest _ => follow_rbrace rest)
+    have h3 := Steps.append hD h4 (fun rest _ => safe_dot hsafeD _)
+    have h2 := Steps.append (steps_name hxn) h3 (fun rest _ => by
+      intro c r hr; simp at hr; rw [← hr.1]; decide)
+    have h1' := Steps.append hL h2 (fun rest _ => safe_beforeTerm hLs (by
+      simp only [List.append_assoc]; exact hxs _))
+    simpa [printText, printSkel, List.append_assoc] using h1'
+  | collectT x ty body ihb =>
+    intro hw hn
+    have hb := ihb hw hn.2.2
+    have hty := ty_lex hTy uni ty hn.2.1
+    have hC : Steps S [58, 58] [.sym L.dcolon] (fun _ => True) := dcolon_steps hdc
+    obtain ⟨⟨hLc, hLt, hLs⟩, _, ⟨hRc, hRt, hRs⟩⟩ := hbr
+    have hL : Steps S [123] [.sym L.lbrace] (SafeAfter S [123]) := by
+      have := steps_symbol (S := S) (w := [123]) (by decide) hLc
+      rw [hLt] at this; exact this
+    have hR : Steps S [125] [.sym L.rbrace] Follow := by
+      have := steps_symbol (S := S) (w := [125]) (by decide) hRc
+      rw [hRt] at this
+      exact this.mono (fun rest _ => safe_only hRs rest)
+    have hD : Steps S [46, 32] [.dot] (SafeAfter S [46, 32]) := by
+      have := steps_symbol (S := S) (w := [46, 32]) (by decide) hdotT
+      simpa [tokOfTerminal] using this
+    obtain ⟨hxn, hxi⟩ := hn.1
+    have hxs : ∀ r, TextStart T (x ++ r) := by
+      intro r
+      cases x with
+      | nil => simp [idShaped] at hxi
+      | cons c cs =>
+        simp only [idShaped, Bool.and_eq_true] at hxi
+        simp only [List.cons_append]
+        exact ts_head _ (Or.inl hxi.1)
+    refine ⟨?_, fun rest => by simpa [printText] using ts_lbrace (T := T) _⟩
+    have h5 := Steps.append hb.1 hR (fun rest _ => follow_rbrace rest)
+    have h4 := Steps.append hD h5 (fun rest _ => safe_dot hsafeD _)
+    have h3' := Steps.append hty h4 (fun rest _ => follow_dot _)
+    have h3 := Steps.append hC h3' (fun _ _ => trivial)
+    have h2 := Steps.append (steps_name hxn) h3 (fun rest _ => by
+      intro c r hr; simp at hr; rw [← hr.1]; decide)
+    have h1' := Steps.append hL h2 (fun rest _ => safe_beforeTerm hLs (by
+      simp only [List.append_assoc]; exact hxs _))
+    simpa [printText, printSkel, List.append_assoc] using h1'
 
 /-- the lexer reads the printed text back as the printed tokens -/
 theorem lex_print_core (hT : TextOK T L S) (uni : Bool) (t : Skel) (hw : t.WF T L) (hn : t.NamesOK S) :
